@@ -57,7 +57,11 @@ def handleHTTP (i o : List String) : String :=
       let sseReq := sseRequested marshalers acc && (match pickRequest marshalers jsonM ct with | .ok _ => true | .error _ => false)
       let isSSE := match bound with | .ok b => b.isSSE | .error _ => false
       -- the property's demands on what was observed
+      -- SSE asked for a client-streaming or non-server-streaming method must get the SSE refusal
+      -- (InvalidArgument = 400; Bind runs before the bridge's own client-streaming check)
       if sseReq && (cs || !ss) && status = 200 then s!"VIOL sse-not-refused status={status}"
+      else if sseReq && (cs || !ss) && status ≠ 400 then
+        s!"VIOL sse-refusal-missing status={status} want=400 (refused, but not by the SSE check)"
       else if status = 200 && ss && !cs && isSSE && rct ≠ toHex sseMime && msgsL ≠ [] then
         s!"VIOL sse-content-type got={rct} want={toHex sseMime}"
       else if status = 200 && ss && !cs && !(ps.all (fun p => if isSSE then sseSafe p else lineSafe p)) then
@@ -178,9 +182,68 @@ def handleWS (i o : List String) : String :=
     | _, _, _, _ => "BAD ws fields"
   | _, _ => "BAD ws arity"
 
+def reqOK (ct : List Bytes) : Bool :=
+  match pickRequest marshalers jsonM ct with | .ok _ => true | .error _ => false
+
+/-- `bind <cs> <ss> <accept…> <content-type…>
+      => ok <req mime> <req binary> <resp content-type> <resp binary> <streams> | err <grpc code> <HTTPStatus override>` -/
+def handleBind (i o : List String) : String :=
+  match i with
+  | [_, cs, ss, acc, ct] =>
+    match parseHexList acc, parseHexList ct with
+    | some acc, some ct =>
+      let cs := cs = "1"
+      let ss := ss = "1"
+      let req : BindReq := { accept := acc, contentType := ct, cs, ss }
+      let sseReq := sseRequested marshalers acc && reqOK ct
+      let b01 (b : Bool) : String := if b then "1" else "0"
+      let exp : List String :=
+        match bind marshalers jsonM req with
+        | .ok b => ["ok", toHex b.reqM.mime, b01 b.reqM.binary, toHex (responseContentType b), b01 b.respM.binary, b01 b.respM.stream]
+        | .error .unsupportedMedia => ["err", "3", "415"]
+        | .error _ => ["err", "3", "0"]
+      let mustRefuse := sseReq && (cs || !ss)
+      if mustRefuse && o.head? = some "ok" then "VIOL sse-not-refused (Bind accepted SSE for a client-streaming or non-server-streaming method)"
+      else if mustRefuse && o ≠ ["err", "3", "0"] then s!"VIOL sse-refusal-missing got={o} want=InvalidArgument"
+      else if sseReq && !mustRefuse && o.head? = some "ok" && o[3]? ≠ some (toHex sseMime) then
+        s!"VIOL sse-content-type got={o[3]?.getD "-"} want={toHex sseMime}"
+      else if o ≠ exp then s!"DIFF model={exp}"
+      else
+        let br := if mustRefuse then "bind-sse-refused" else if sseReq then "bind-sse"
+          else if o.head? = some "ok" then "bind-ok" else "bind-415"
+        s!"OK nt b={br}"
+    | _, _ => "BAD bind fields"
+  | _ => "BAD bind arity"
+
+/-- `wsup <cs> <ss> <body> <accept…> <content-type…> => <handshake status>` -/
+def handleWSUp (i o : List String) : String :=
+  match i, o with
+  | [_, cs, ss, _body, acc, ct], [status] =>
+    match parseHexList acc, parseHexList ct with
+    | some acc, some ct =>
+      let cs := cs = "1"
+      let ss := ss = "1"
+      let req : BindReq := { accept := acc, contentType := ct, cs, ss }
+      let sseReq := sseRequested marshalers acc && reqOK ct
+      let exp : String :=
+        match bind marshalers jsonM req with
+        | .ok _ => "101"
+        | .error e => toString (bindErrStatus e)
+      let mustRefuse := sseReq && (cs || !ss)
+      if mustRefuse && status = "101" then "VIOL sse-not-refused (WebSocket upgraded although SSE was asked for a client-streaming or non-server-streaming method)"
+      else if mustRefuse && status ≠ "400" then s!"VIOL sse-refusal-missing status={status} want=400"
+      else if status ≠ exp then s!"DIFF model=status:{exp}"
+      else
+        let br := if mustRefuse then "wsup-sse-refused" else if status = "101" then "wsup-101" else s!"wsup-{status}"
+        s!"OK nt b={br}"
+    | _, _ => "BAD wsup fields"
+  | _, _ => "BAD wsup arity"
+
 def handle : Handler
   | "http" :: i, o => handleHTTP ("http" :: i) o
   | "ws" :: i, o => handleWS ("ws" :: i) o
+  | "bind" :: i, o => handleBind ("bind" :: i) o
+  | "wsup" :: i, o => handleWSUp ("wsup" :: i) o
   | _, _ => "BAD c13 line"
 
 end GB.C13
